@@ -144,6 +144,57 @@ fn compare_numbers(a: &Number, b: &Number) -> Option<std::cmp::Ordering> {
     }
 }
 
+fn factorial(sub_result: Number) -> Result<Number, Box<dyn error::Error>> {
+    match sub_result {
+        Number::Integer(n) => {
+            if (0..=20).contains(&n) {
+                let mut factorial_result = 1;
+                for i in 2..=(n as usize) {
+                    #[cfg(feature = "verif_hooks")]
+                    crate::verif_hooks::tick(3);
+                    factorial_result *= i as i64;
+                }
+                Ok(Number::Integer(factorial_result))
+            } else {
+                Ok(Number::Float(gamma((n as f64) + 1.0)))
+            }
+        }
+        Number::Float(n) => {
+            if n >= 0.0 && (n % 1.0) == 0.0 {
+                // an integral Float: the exact product, as eval_f64 computes it
+                if n > 170.0 {
+                    return Ok(Number::Float(f64::INFINITY));
+                }
+                let mut factorial_result = 1.0;
+                for i in 2..=(n as usize) {
+                    #[cfg(feature = "verif_hooks")]
+                    crate::verif_hooks::tick(3);
+                    factorial_result *= i as f64;
+                }
+                Ok(Number::from(factorial_result))
+            } else {
+                Ok(Number::Float(gamma(n + 1.0)))
+            }
+        }
+    }
+}
+
+fn multiply(a: Number, b: Number) -> Result<Number, Box<dyn error::Error>> {
+    match a {
+        Number::Integer(value_a) => match b {
+            Number::Integer(value_b) => match value_a.checked_mul(value_b) {
+                Some(sub) => Ok(Number::Integer(sub)),
+                None => Ok(Number::Float((value_a as f64) * (value_b as f64))),
+            },
+            Number::Float(value_b) => Ok(Number::Float((value_a as f64) * value_b)),
+        },
+        Number::Float(value_a) => match b {
+            Number::Integer(value_b) => Ok(Number::Float(value_a * (value_b as f64))),
+            Number::Float(value_b) => Ok(Number::Float(value_a * value_b)),
+        },
+    }
+}
+
 pub fn eval(expr: Node) -> Result<Number, Box<dyn error::Error>> {
     #[cfg(feature = "verif_hooks")]
     crate::verif_hooks::tick(2);
@@ -185,21 +236,21 @@ pub fn eval(expr: Node) -> Result<Number, Box<dyn error::Error>> {
             }
         }
         Multiply(expr1, expr2) => {
-            let a = eval(*expr1)?;
-            let b = eval(*expr2)?;
-            match a {
-                Number::Integer(value_a) => match b {
-                    Number::Integer(value_b) => match value_a.checked_mul(value_b) {
-                        Some(sub) => Ok(Number::Integer(sub)),
-                        None => Ok(Number::Float((value_a as f64) * (value_b as f64))),
-                    },
-                    Number::Float(value_b) => Ok(Number::Float((value_a as f64) * value_b)),
-                },
-                Number::Float(value_a) => match b {
-                    Number::Integer(value_b) => Ok(Number::Float(value_a * (value_b as f64))),
-                    Number::Float(value_b) => Ok(Number::Float(value_a * value_b)),
-                },
+            // a left-leaning chain a*b*c... (and x°°°..., which the parser writes as products) is folded in a loop instead of
+            // costing one recursion level per factor; the operands are still evaluated from left to right
+            let mut factors = vec![*expr2];
+            let mut first = *expr1;
+            while let Multiply(left, right) = first {
+                #[cfg(feature = "verif_hooks")]
+                crate::verif_hooks::tick(2);
+                factors.push(*right);
+                first = *left;
             }
+            let mut product = eval(first)?;
+            while let Some(factor) = factors.pop() {
+                product = multiply(product, eval(factor)?)?;
+            }
+            Ok(product)
         }
         Divide(expr1, expr2) => {
             let a = eval(*expr1)?;
@@ -312,39 +363,20 @@ pub fn eval(expr: Node) -> Result<Number, Box<dyn error::Error>> {
             }
         }
         Factorial(sub_expr) => {
-            let sub_result = eval(*sub_expr)?;
-            match sub_result {
-                Number::Integer(n) => {
-                    if (0..=20).contains(&n) {
-                        let mut factorial_result = 1;
-                        for i in 2..=(n as usize) {
-                            #[cfg(feature = "verif_hooks")]
-                            crate::verif_hooks::tick(3);
-                            factorial_result *= i as i64;
-                        }
-                        Ok(Number::Integer(factorial_result))
-                    } else {
-                        Ok(Number::Float(gamma((n as f64) + 1.0)))
-                    }
-                }
-                Number::Float(n) => {
-                    if n >= 0.0 && (n % 1.0) == 0.0 {
-                        // an integral Float: the exact product, as eval_f64 computes it
-                        if n > 170.0 {
-                            return Ok(Number::Float(f64::INFINITY));
-                        }
-                        let mut factorial_result = 1.0;
-                        for i in 2..=(n as usize) {
-                            #[cfg(feature = "verif_hooks")]
-                            crate::verif_hooks::tick(3);
-                            factorial_result *= i as f64;
-                        }
-                        Ok(Number::from(factorial_result))
-                    } else {
-                        Ok(Number::Float(gamma(n + 1.0)))
-                    }
-                }
+            // x!!!...: the chain is unwound here instead of costing one recursion level per `!`
+            let mut operand = *sub_expr;
+            let mut count = 1;
+            while let Factorial(inner) = operand {
+                #[cfg(feature = "verif_hooks")]
+                crate::verif_hooks::tick(2);
+                operand = *inner;
+                count += 1;
             }
+            let mut value = eval(operand)?;
+            for _ in 0..count {
+                value = factorial(value)?;
+            }
+            Ok(value)
         }
         LambertW(expr) => {
             let sub_expr = eval(*expr)?;
